@@ -10,6 +10,7 @@ import (
 	"go/constant"
 	"go/token"
 	"go/types"
+	"regexp"
 	"sort"
 	"strings"
 	"sync"
@@ -162,10 +163,10 @@ type Exec struct {
 	typeTags       map[string]int
 	curFrame       *Frame
 	usesSz         bool
-	callCount   map[string]int
-	sortCount   int
-	rangeEntry  map[*ssa.Range]Term
-	rangeOfLoop map[*ssa.BasicBlock]*ssa.Range
+	callCount      map[string]int
+	sortCount      int
+	rangeEntry     map[*ssa.Range]Term
+	rangeOfLoop    map[*ssa.BasicBlock]*ssa.Range
 	mu             sync.Mutex
 	oblNames       map[string]int
 	replayStrTerms []string
@@ -946,6 +947,9 @@ func (x *Exec) frameObligations(f *Frame, ex exitState) {
 		if strings.HasPrefix(n, "$") {
 			continue // $alloc and ghost iteration state
 		}
+		if strings.HasPrefix(n, "Cell__") && regexp.MustCompile(`^Cell__[0-9]+_`).MatchString(n) {
+			continue // cells of array type: only the varargs temporaries allocated by the function itself
+		}
 		fin := ex.st.heaps[n]
 		ini, ok := x.initHeaps[n]
 		if !ok || fin.S == ini.S {
@@ -1149,11 +1153,23 @@ func (x *Exec) findLoops(f *Frame) {
 		li.ordinal = i
 		if f.top && x.con != nil {
 			li.spec = x.con.Loops[i]
+			if all := x.con.Loops[-1]; all != nil {
+				// clauses given for every loop ("loop * ...") come first
+				m := &LoopSpec{}
+				m.Invariants = append(m.Invariants, all.Invariants...)
+				m.Modifies = append(m.Modifies, all.Modifies...)
+				if li.spec != nil {
+					m.Invariants = append(m.Invariants, li.spec.Invariants...)
+					m.Modifies = append(m.Modifies, li.spec.Modifies...)
+					m.Decreases = li.spec.Decreases
+				}
+				li.spec = m
+			}
 		}
 	}
 	if f.top {
 		for k := range x.con.Loops {
-			if k >= len(lis) {
+			if k >= len(lis) && k >= 0 {
 				x.fail("contract gives an invariant for loop %d but the function has %d loops", k, len(lis))
 			}
 		}
@@ -1449,8 +1465,8 @@ func (x *Exec) loopVars(f *Frame, li *loopInfo) map[string]TV {
 	best := map[string]*ssa.Alloc{}
 	for a := range st.locals {
 		n := a.Comment
-		if n == "" {
-			continue
+		if n == "" || a.Parent() != f.fn {
+			continue // unnamed temporaries and locals of inlined callees
 		}
 		if b, ok := best[n]; !ok || a.Pos() > b.Pos() {
 			best[n] = a
